@@ -69,7 +69,9 @@ void *__wrap_mmap(void *addr, size_t len, int prot, int flags, int fd,
     errno = ENOMEM;
     return MAP_FAILED;
   }
-  if (wrap_in_api && guard_files && fd != -1 && len > 0) {
+  /* guard every non-executable mapping the library makes (file mappings and the
+   * anonymous copy of a file): the byte after its last page is unreadable */
+  if (wrap_in_api && guard_files && !(prot & PROT_EXEC) && len > 0) {
     size_t rounded = (len + PAGE - 1) / PAGE * PAGE;
     char *res = __real_mmap(NULL, rounded + PAGE, PROT_NONE,
                             MAP_PRIVATE | MAP_ANONYMOUS, -1, 0);
